@@ -7,6 +7,8 @@ import (
 	"reflect"
 	"sort"
 	"strings"
+	"sync/atomic"
+	"time"
 
 	stackage "github.com/JesseCoretta/go-stackage"
 )
@@ -723,18 +725,128 @@ func c08GenericInts(c *Ctx) int {
 	return n
 }
 
+// Pointer types that refer to themselves (type P *P; type A *B with type B *A): a nil value of such a type is
+// a typed nil pointer "of any depth" - of every depth, in fact. A value tied to itself (p = &p) is tried as
+// well. A library routine that peels pointers until it arrives somewhere never arrives: "returns normally"
+// fails by not returning at all, so each of these calls runs under a watchdog (60 s for a call that takes
+// microseconds; the first one that does not come back ends the pass, since a spinning goroutine cannot be
+// stopped).
+type selfPtr *selfPtr
+type ptrA *ptrB
+type ptrB *ptrA
+
+func c08SelfPointers(c *Ctx, only *c08ValCase) int {
+	var knot selfPtr
+	knot = selfPtr(&knot)
+	var ka ptrA
+	var kb ptrB
+	ka, kb = ptrA(&kb), ptrB(&ka)
+	vals := []namedValue{nv("nil pointer of type P *P", selfPtr(nil)), nv("nil pointer of type A *B (B *A)", ptrA(nil)), nv("pointer of type P *P tied to itself", knot), nv("pointer of type A *B tied to itself in two steps", ka)}
+	recvs := c08Receivers()
+	type job struct {
+		rname string
+		me    methodEntry
+		t     argTuple
+	}
+	var jobs []job
+	for rname, mk := range recvs {
+		var ms []methodEntry
+		if _, ok := mk().(stackage.Stack); ok {
+			ms = methodsOf(stackage.Stack{}, "Stack")
+		} else {
+			ms = methodsOf(stackage.Condition{}, "Condition")
+		}
+		for _, me := range ms {
+			takesAny := false
+			for i := 0; i < me.Type.NumIn(); i++ {
+				t := me.Type.In(i)
+				if t == anyType || (me.Type.IsVariadic() && i == me.Type.NumIn()-1 && t.Elem() == anyType) {
+					takesAny = true
+				}
+			}
+			if !takesAny {
+				continue
+			}
+			pick := func(t reflect.Type, pos int) []namedValue {
+				switch t {
+				case anyType:
+					return vals
+				case opType:
+					return []namedValue{{"Eq", reflect.ValueOf(stackage.Eq)}}
+				case intType:
+					return []namedValue{nv("0", 0)}
+				}
+				return basicValues(t)[:1]
+			}
+			for _, t := range argTuples(me.Type, pick, 40) {
+				if only == nil || (only.Recv == rname && only.Method == me.Name && only.Args == t.Desc) {
+					jobs = append(jobs, job{rname, me, t})
+				}
+			}
+		}
+	}
+	sort.Slice(jobs, func(i, k int) bool {
+		return jobs[i].rname+jobs[i].me.Name+jobs[i].t.Desc < jobs[k].rname+jobs[k].me.Name+jobs[k].t.Desc
+	})
+	var stuck atomic.Bool
+	for _, j := range jobs {
+		if stuck.Load() {
+			break
+		}
+		done := make(chan struct{})
+		j := j
+		go func() {
+			defer close(done)
+			c08ValRun(c, recvs[j.rname], c08ValCase{j.rname, j.me.Name, j.t.Desc}, j.t.Args, only == nil)
+		}()
+		select {
+		case <-done:
+		case <-time.After(60 * time.Second):
+			stuck.Store(true)
+			desc := fmt.Sprintf("%s.%s(%s)", j.rname, j.me.Name, j.t.Desc)
+			c.Violation("never-returns:"+j.me.Name, desc+" (or one of the queries made on the instance afterwards) did not return within 60 s: a pointer type that refers to itself is peeled for ever", c08ValCase{j.rname, j.me.Name, j.t.Desc}, len(desc))
+		}
+	}
+	// the package-level converters
+	for _, v := range vals {
+		if stuck.Load() || only != nil {
+			break
+		}
+		v := v
+		done := make(chan string, 1)
+		go func() {
+			done <- noPanic(func() {
+				stackage.ConvertStack(v.V.Interface())
+				stackage.ConvertCondition(v.V.Interface())
+			})
+		}()
+		select {
+		case p := <-done:
+			if p != "" {
+				c.Violation("panic:Convert:self-pointer", "ConvertStack / ConvertCondition("+v.N+") panicked: "+p, nil, 0)
+			}
+		case <-time.After(60 * time.Second):
+			stuck.Store(true)
+			c.Violation("never-returns:Convert", "ConvertStack / ConvertCondition("+v.N+") did not return within 60 s: a pointer type that refers to itself is peeled for ever", nil, 0)
+		}
+	}
+	return len(jobs) + len(vals)
+}
+
 func init() {
 	register(&Check{ID: "C08", Engine: "B", Run: func(c *Ctx) {
 		installLockModel()
 		c.Bound["traversals_into_nested_stacks_with_their_own_index_options"] = c08Nested(c)
 		cases := c08IntCases(c)
-		c.Rule = "(ints) complete product of stacks (kinds, length 0..3/4, nil-slot patterns, negative/forward options, capacity none/Len/Len+1) x index values {MinInt, MinInt+1, MinInt/2, -Len-2..Len+2, MaxInt/2, MaxInt-1, MaxInt} x {Index, Remove, Replace, Traverse (1 and 2 indices), Insert, Defrag, Swap(i,j), Less(i,j)} against the reference list, plus every other int-taking method found by reflection with extreme values; (values) every Stack/Condition method found by reflection that takes `any` or an Operator x the catalogue of awkward values x 7 receivers, followed by String/Unmarshal/IsEqual/Valid/IsNesting/Traverse/Front/Back/Less/Reveal/Defrag/Pop/Reset on the same instance; oracle: no panic, failure + raw dump unchanged for indices that address no element, stack still initialised; non-trivial = distinct int cases whose index addresses no element + distinct value cases"
+		c.Rule = "(ints) complete product of stacks (kinds, length 0..3/4, nil-slot patterns, negative/forward options, capacity none/Len/Len+1) x index values {MinInt, MinInt+1, MinInt/2, -Len-2..Len+2, MaxInt/2, MaxInt-1, MaxInt} x {Index, Remove, Replace, Traverse (1 and 2 indices), Insert, Defrag, Swap(i,j), Less(i,j)} against the reference list, plus every other int-taking method found by reflection with extreme values; (values) every Stack/Condition method found by reflection that takes `any` or an Operator x the catalogue of awkward values x 7 receivers, followed by String/Unmarshal/IsEqual/Valid/IsNesting/Traverse/Front/Back/Less/Reveal/Defrag/Pop/Reset on the same instance; the same for nil and knotted values of pointer types that refer to themselves (type P *P), each call under a 60 s watchdog; oracle: no panic, failure + raw dump unchanged for indices that address no element, stack still initialised; non-trivial = distinct int cases whose index addresses no element + distinct value cases"
 		parallelFor(len(cases), func(i int) { c08IntRun(c, cases[i], true) })
 		ng := c08GenericInts(c)
 		nv := c08ValueCases(c, true)
 		nx := c08CrossCompare(c)
 		c.Bound["cross_comparisons"] = nx
-		c.States.Store(int64(len(cases) + nv + ng + nx))
+		nsp := c08SelfPointers(c, nil)
+		c.Bound["calls_with_self_referential_pointer_types"] = nsp
+		c.States.Store(int64(len(cases) + nv + ng + nx + nsp))
 		c.Exhaustive = true
 		c.Bound["int_cases"] = len(cases)
 		c.Bound["value_cases"] = nv
@@ -757,6 +869,10 @@ func init() {
 		}
 		var vc c08ValCase
 		json.Unmarshal(raw, &vc)
+		if strings.Contains(vc.Args, "pointer of type") {
+			c08SelfPointers(c, &vc)
+			return
+		}
 		recvs := c08Receivers()
 		pickAll := func(t reflect.Type, pos int) []namedValue {
 			if t == anyType {
